@@ -178,7 +178,28 @@ def fam_estimators(rnd):
     return ["list", items]
 
 
-FAMILIES = [("dag", fam_dag, 8), ("manyarrays", fam_manyarrays, 2), ("tempheavy", fam_tempheavy, 4), ("ladder", fam_ladder, 2),
+def fam_methods(rnd):
+    """instances together with their own bound methods: a method's owner must be THE instance, whichever is written first.
+    (values.build numbers objects with identity in completion order, so the k owners built first are made[0..k-1])"""
+    k = rnd.randint(1, 3)
+    owners = [["userobj", "Plain", [["n", ["int", i]]]] for i in range(k)]
+    tail = [["method", ["ref", rnd.randrange(k)]] for _ in range(rnd.randint(1, 4))]
+    tail += [["ref", rnd.randrange(k)] for _ in range(rnd.randint(0, 2))]
+    rnd.shuffle(tail)
+    body = owners + tail
+    # method first, its owner afterwards: the fresh owner inside the method is made[k + j]
+    nfresh = rnd.randint(0, 2)
+    for j in range(nfresh):
+        body.append(["method", ["userobj", "Plain", [["n", ["int", 10 + j]]]]])
+    for j in range(nfresh):
+        body.append(["ref", k + j])
+    wrap = rnd.choice(["list", "tuple", "dict"])
+    if wrap == "dict":
+        return ["dict", [[["str", "k%d" % i], v] for i, v in enumerate(body)]]
+    return [wrap, body]
+
+
+FAMILIES = [("methods", fam_methods, 2), ("dag", fam_dag, 8), ("manyarrays", fam_manyarrays, 2), ("tempheavy", fam_tempheavy, 4), ("ladder", fam_ladder, 2),
             ("estimators", fam_estimators, 1)]
 
 
